@@ -342,12 +342,77 @@ fn stream_adler(rep: &mut Report, rng: &mut Rng) {
     }
 }
 
+/// Adler-32 at the edges of its modular arithmetic: for buffer lengths 1..=40 (both sides of
+/// every short-buffer / block-size special case) and lengths around 5552, the starting value is
+/// chosen so that the unreduced low sum and/or high sum ends exactly on 65521 + d, d in -2..=2.
+/// Every pair (a, b) with a, b <= 65520 is the checksum of some prefix, so these are legal
+/// starting values.
+fn adler_boundaries(rep: &mut Report, rng: &mut Rng, k: u64) {
+    const M: u64 = 65521;
+    let lens: [usize; 52] = [1, 2, 3, 4, 5, 6, 7, 8, 9, 10, 11, 12, 13, 14, 15, 16, 17, 18, 19, 20, 21, 22, 23, 24, 25, 26, 27, 28, 29, 30, 31, 32, 33, 34, 35, 36, 37, 38, 39, 40, 47, 48, 63, 64, 65, 5551, 5552, 5553, 11104, 256, 257, 4096];
+    let n = lens[(k % lens.len() as u64) as usize];
+    let buf: Vec<u8> = match rng.below(3) {
+        0 => vec![0xff; n],
+        1 => (0..n).map(|_| rng.below(4) as u8).collect(),
+        _ => rng.bytes(n),
+    };
+    let sum: u64 = buf.iter().map(|&b| b as u64).sum();
+    for da in -2i64..=2 {
+        for db in -2i64..=2 {
+            // a0 such that a0 + sum == M + da (mod M)
+            let a0 = ((M as i64 + da - (sum % M) as i64).rem_euclid(M as i64)) as u64;
+            // b grows by sum over i of (a0 + prefix_sum_i)
+            let mut acc = 0u64;
+            let mut a = a0;
+            for &x in &buf {
+                a += x as u64;
+                acc += a;
+            }
+            let b0 = ((M as i64 + db - (acc % M) as i64).rem_euclid(M as i64)) as u64;
+            let start = ((b0 as u32) << 16) | a0 as u32;
+            let want = adler32(start, &buf);
+            for which in [0usize, 2] {
+                rep.eval();
+                rep.count("adler_modular_boundary_cases");
+                match call(which, start, &buf) {
+                    Ok(got) if got == want => {}
+                    Ok(got) => rep.violation(
+                        &format!("C16:wrong-checksum:{}", FN_NAMES[which]),
+                        format!("{}(start {:08x}, {} bytes) = {:08x}, definition gives {:08x} (sums end {} / {} away from the modulus)", FN_NAMES[which], start, n, got, want, da, db),
+                        Json::obj(vec![("function", Json::s(FN_NAMES[which])), ("start", Json::s(&format!("{:08x}", start))), ("len", Json::u(n)), ("data_hex", Json::s(&hex_short(&buf, 64))), ("what", Json::s("modular boundary"))]),
+                    ),
+                    Err(p) => rep.violation(&format!("C16:panic:{}", p.site_file()), format!("{} panicked: {}", FN_NAMES[which], p.text), Json::Null),
+                }
+                // and split in two at a random point
+                if n >= 2 {
+                    let cut = 1 + rng.below(n - 1);
+                    if let (Ok(m), true) = (call(which, start, &buf[..cut]), true) {
+                        if let Ok(got) = call(which, m, &buf[cut..]) {
+                            if got != want {
+                                rep.violation(
+                                    &format!("C16:split-dependent:{}", FN_NAMES[which]),
+                                    format!("{}: {} bytes split at {} (start {:08x}) gives {:08x}, one pass / definition {:08x}", FN_NAMES[which], n, cut, start, got, want),
+                                    Json::obj(vec![("start", Json::s(&format!("{:08x}", start))), ("len", Json::u(n)), ("cut", Json::u(cut)), ("data_hex", Json::s(&hex_short(&buf, 64)))]),
+                                );
+                            }
+                        }
+                    }
+                }
+            }
+            let mut h = Hasher::new();
+            h.bytes(&buf).u64(start as u64);
+            rep.nontrivial(h.finish());
+        }
+    }
+}
+
 pub fn run(ctx: &Ctx, rep: &mut Report) {
     let n_u = ctx.n(1200, 40_000);
     let n_c = ctx.n(300, 8000);
     let n_d = ctx.n(300, 8000);
     let n_s = ctx.n(200, 6000);
-    for k in ctx.cases(n_u + n_c + n_d + n_s) {
+    let n_b = ctx.n(520, 10_400);
+    for k in ctx.cases(n_u + n_c + n_d + n_s + n_b) {
         rep.cur_case = k;
         crate::ctx::begin_case(k);
         let mut rng = ctx.rng("case", k);
@@ -357,8 +422,10 @@ pub fn run(ctx: &Ctx, rep: &mut Report) {
             compressor_running(rep, &mut rng);
         } else if k < n_u + n_c + n_d {
             decoder_running(rep, &mut rng);
-        } else {
+        } else if k < n_u + n_c + n_d + n_s {
             stream_adler(rep, &mut rng);
+        } else {
+            adler_boundaries(rep, &mut rng, k - (n_u + n_c + n_d + n_s));
         }
     }
     rep.set_insert("adler_backend", if cfg!(feature = "simd") { "simd-adler32 (feature simd)" } else { "adler2 (scalar)" });
